@@ -12,7 +12,10 @@ fn pool(e: &str) -> Vec<&'static str> {
                               "-1", "-2", "-0.5", "0.5", "1.2", "1.4", "1.0001", "1.5", "0.999", "-0.3678794411714423", "-0.36", "1rad", "100", "14",
                               "9007199254740993", "2.5", "170.5", "171.5", "1.4446678610097661", "1.45", "0.0000001", "10^18", "2^1023*1.99"],
         "i64" => vec!["0", "1", "2", "20", "21", "22", "63", "64", "1000000000000000000", "9223372036854775807", "-9223372036854775807-1", "-1", "5", "8", "13",
-                      "34", "6557470319842", "10610209857723", "4660046610375530309", "7540113804746346429", "-7540113804746346429", "3037000500"],
+                      "34", "6557470319842", "10610209857723", "4660046610375530309", "7540113804746346429", "-7540113804746346429", "3037000500",
+                      // perfect squares and their neighbours above 2^53 (integer refinements of a double estimate settle or oscillate there)
+                      "4611686018427387903", "4611686018427387904", "4611686018427387905", "9223372030926249000", "9223372030926249001", "9223372030926249002",
+                      "9007199326062755", "9007199326062756", "9007199254740993", "1000000000000000000", "999999999999999999", "81", "80"],
         _ => vec!["0", "1", "2", "27", "28", "29", "100", "1.2", "1.4", "1.0001", "0.5", "-1", "-0.5", "79228162514264337593543950335",
                   "0.0000000000000000000000000001", "1000000", "14", "50", "1.3", "2.5", "26.5", "-0.36", "-0.3678794411", "1.4446678610097661", "1.45", "10^27", "3"],
     }
@@ -32,6 +35,11 @@ pub fn run(out: &mut Out, v: &Vocab, e: &str, shard: u64, nshards: u64, start: u
     }
     if has("LambertW") {
         for a in &p { inputs.push(format!("w({})", a)); inputs.push(format!("lambert_w(w({}))", a)); inputs.push(format!("w(({})!)", a)); inputs.push(format!("w(-({}))", a)); }
+    }
+    // the real-valued functions of eval_i64 (and everywhere else) on the whole pool: each must return within the budget
+    for kw in v.all_keywords_of(e) {
+        if kw.cls == "f1" { for a in &p { inputs.push(format!("{}({})", kw.name, a)); } }
+        if kw.cls == "f2" { for a in p.iter().step_by(3) { for b in p.iter().step_by(4) { inputs.push(format!("{}({},{})", kw.name, a, b)); } } }
     }
     if has("Gcd") {
         for a in &p { for b in &p { inputs.push(format!("gcd({},{})", a, b)); inputs.push(format!("lcm({},{})", a, b)); } }
@@ -54,5 +62,69 @@ pub fn run(out: &mut Out, v: &Vocab, e: &str, shard: u64, nshards: u64, start: u
         let ctx = json!({"construct": "loop", "input": inp});
         let o = checked_call(out, e, inp, &ph, None, json!({"v": "unclaimed"}), true, &ctx);
         if out.stats.samples.len() < 6 && i % 211 == 5 { out.stats.samples.push(json!({"e": e, "input": inp, "outcome": o.show()})); }
+    }
+}
+
+/// C01 / C02 at the 256-character limit: the deepest recursion and the longest iterations an input of that length can ask for -
+/// nested brackets, chains of prefix signs and postfix operators, nested calls of every function class, long operator chains of
+/// every level, long argument lists, long literals and superscript runs, juxtaposition chains.  The call must return (no stack
+/// overflow, no panic) within the step budget; the recorded step counts are validated against the specification (CalcTrace).
+pub fn deep_shapes(out: &mut Out, v: &Vocab, e: &str) {
+    let mut inputs: Vec<String> = Vec::new();
+    let lit = if e == "cpx" { "2i" } else { "2" };
+    let has_kind = |k: &str| v.has_kind(e, k);
+    for k in [1usize, 8, 40, 100, 127] {
+        inputs.push(format!("{}{}{}", "(".repeat(k), lit, ")".repeat(k)));
+        if has_kind("lf") { inputs.push(format!("{}{}{}", "⌊".repeat(k), lit, "⌋".repeat(k))); inputs.push(format!("{}{}{}", "⌈(".repeat(k / 2 + 1), lit, ")⌉".repeat(k / 2 + 1))); }
+        inputs.push(format!("{}{}", "-".repeat(2 * k), lit));
+        inputs.push(format!("{}{}", "+-".repeat(k), lit));
+        if has_kind("bang") { inputs.push(format!("1{}", "!".repeat(2 * k))); }
+        if has_kind("deg") { inputs.push(format!("{}{}", lit, "°".repeat(2 * k))); inputs.push(format!("{}{}", lit, "rad".repeat(k.min(84)))); }
+        inputs.push(format!("{}{}", lit, "²".repeat(1)));
+        inputs.push(format!("{}{}", lit, "¹".repeat((2 * k).min(250))));                  // one superscript run of many digits
+        inputs.push(format!("{}{}", "1".repeat((2 * k).min(255)), ""));                   // one long literal
+        if e != "i64" { inputs.push(format!("0.{}", "3".repeat((2 * k).min(253)))); }
+    }
+    for op in ["+", "-", "*", "/", "^", "%", "&", "|", "<<", ">>"] {
+        let kind = match op { "+" => "add", "-" => "sub", "*" => "mul", "/" => "div", "^" => "pow", "%" => "mod", "&" => "and", "|" => "or", "<<" => "shl", _ => "shr" };
+        if !has_kind(kind) { continue; }
+        for unit in ["1", lit] {
+            let n = (255 - unit.len()) / (op.len() + unit.len());
+            let mut s = String::from(unit);
+            for _ in 0..n { s.push_str(op); s.push_str(unit); }
+            inputs.push(s);
+        }
+        // right-nested through brackets: a op (a op (a op ...))
+        let n = 60;
+        inputs.push(format!("{}1{}", format!("1{}(", op).repeat(n), ")".repeat(n)));
+    }
+    for kw in v.all_keywords_of(e) {
+        let name = &kw.name;
+        let per = name.len() + 2;
+        let k = (250 / per).min(80);
+        match kw.cls.as_str() {
+            "f1" => { inputs.push(format!("{}{}{}", format!("{}(", name).repeat(k), lit, ")".repeat(k))); }
+            "f2" => { let k = (240 / (per + 2)).min(60); inputs.push(format!("{}{}{}", format!("{}(", name).repeat(k), lit, ",2)".repeat(k)));
+                      inputs.push(format!("{}{}{}", format!("{}(2,", name).repeat(k), lit, ")".repeat(k))); }
+            _ => { let k = (240 / (per + 2)).min(60);
+                   inputs.push(format!("{}{}{}", format!("{}(", name).repeat(k), lit, ",1)".repeat(k)));
+                   inputs.push(format!("{}{}{}", format!("{}(1,", name).repeat(k), lit, ")".repeat(k)));
+                   inputs.push(format!("{}({})", name, vec!["7"; (250 - per) / 2].join(","))); }
+        }
+    }
+    // juxtaposition chains and mixed towers
+    inputs.push(format!("2{}", "(2)".repeat(84)));
+    inputs.push(format!("{}2{}", "2(".repeat(84), ")".repeat(84)));
+    if has_kind("bang") { inputs.push(format!("{}3{}", "(".repeat(60), ")!".repeat(60))); inputs.push(format!("2{}", "!(2)".repeat(50))); }
+    inputs.push(format!("{}@{}", "-(".repeat(84), ")".repeat(84)));
+    inputs.push(format!("@{}", "*@".repeat(127)));
+    let ph = default_placeholder(e);
+    for (i, inp) in inputs.iter().enumerate() {
+        out.heartbeat(i as u64);
+        out.stats.items += 1;
+        if inp.chars().count() > 256 { continue; }
+        let ctx = json!({"construct": "deep shape", "chars": inp.chars().count()});
+        let o = checked_call(out, e, inp, &ph, None, json!({"v": "unclaimed"}), true, &ctx);
+        if out.stats.samples.len() < 6 && i % 37 == 5 { out.stats.samples.push(json!({"e": e, "input": inp, "outcome": o.show()})); }
     }
 }
